@@ -318,7 +318,7 @@ fn innermost_library_frame() -> (String, bool) {
                     // normalise "<datasketches::a::B as core::..>::f" a little
                     let start = sym.find("datasketches::").unwrap_or(0);
                     let mut s = sym[start..].to_string();
-                    s = s.replace("::{{closure}}", "");
+                    s = s.replace("::{{closure}}", "").replace('<', "").replace('>', "");
                     return (s, true);
                 }
                 if sym.contains("dsverif::") && first_harness.is_none() {
